@@ -1,14 +1,22 @@
 import Hgxv.Model.Wire
 import Hgxv.Model.C01
-/-! Line protocol for C01.  The driver runs the concrete model (`C01.step`) and the abstract spec
-(`C01.Spec.step`) in lock step on the same commands.
+import Hgxv.Model.C01X
+/-! Line protocol for C01.  The driver runs the concrete whole-object model (`C01.fstep`, which runs `C01.apply` on the
+tables for every base operation, `Hgxv/Model/C01X.lean`) and the abstract spec (`C01.FSpec.step`) in lock step on the
+same commands.
 
   `reset k`                       -> `ok`     k fresh unweighted slots
   `new i w <meta>`                -> `ok|rej`
   `copy i j`                      -> `ok|rej`
   `op i <name> <args>`            -> `ok|rej` (`SPECDIFF ...` when the spec answers differently)
   `q i <name> <args>`             -> answer of the concrete model (`SPECDIFF c | s` when the spec differs)
-  `chk i`                         -> `1` iff `abs (concrete slot i) = spec slot i`
+  `chk i`                         -> `1` iff `fabs (concrete slot i) = spec slot i`
+  `extract i j sub <nodes>` | `extract i j orders <orders|~> <sizes|~> <keep>` | `extract i j edges <filter> <iso>`
+                                  -> `ok|rej`  slot j := the object the extraction routine builds from slot i
+  `rebase i j`                    -> `ok`     harness helper, NOT a model command: slot j keeps its incidence / empty-edge
+                                              tables and takes the node / hyperedge tables of slot i (adoption of an
+                                              object that another part of the library changed in place)
+  extra ops `setinc <edge> <node> <meta>`, `addempty <name> <meta>`; extra queries `incmeta <edge> <node>`, `allincmeta`
 
 Encodings: option `~` = None; meta `k:v,k:v` (`-` empty; `_` empty inside a list); nat list `1,2` (`-`);
 list of lists `1,2;3` (`-`, inner empty `_`); filter = three tokens `order size upto`. -/
@@ -93,6 +101,22 @@ def query? : List String → Option Query
   | ["isisolated", n, a, b, c] => do pure (.isIsolated (← n.toNat?) (← filter? a b c))
   | _ => none
 
+def fop? : List String → Option FOp
+  | ["setinc", e, n, md] => do pure (.setIncMeta (← nats? e) (← n.toNat?) (← meta? "-" md))
+  | ["addempty", name, md] => do pure (.addEmptyEdge (← name.toNat?) (← meta? "-" md))
+  | rest => (op? rest).map .base
+
+def fquery? : List String → Option FQuery
+  | ["incmeta", e, n] => do pure (.incMeta (← nats? e) (← n.toNat?))
+  | ["allincmeta"] => some .allIncMeta
+  | rest => (query? rest).map .base
+
+def extract? : List String → Option Extract
+  | ["sub", ns] => do pure (.sub (← nats? ns))
+  | ["orders", os, ks, keep] => do pure (.orders (← optOf ints? os) (← optOf ints? ks) (← bool? keep))
+  | ["edges", a, b, c, iso] => do pure (.edges (← filter? a b c) (← bool? iso))
+  | _ => none
+
 def showMeta (empty : String) (m : Meta) : String :=
   showList "," empty (fun (p : Nat × Nat) => toString p.1 ++ ":" ++ toString p.2) m
 def showEdge (e : Edge) : String := showList "," "_" toString e
@@ -110,22 +134,27 @@ def showAns : Ans → String
   | .ews l => showList ";" "-" (fun (p : Edge × Int) => showEdge p.1 ++ "=" ++ toString p.2) l
   | .pairs l => showList "," "-" (fun (p : Int × Nat) => toString p.1 ++ ":" ++ toString p.2) l
 
+def showFAns : FAns → String
+  | .base a => showAns a
+  | .imetas l => showList ";" "-" (fun (p : IncKey × Meta) =>
+      showEdge p.1.1 ++ "@" ++ toString p.1.2 ++ "=" ++ showMeta "_" p.2) l
+
 def showOut : Out → String
   | .ok => "ok"
   | .rej => "rej"
 
 structure St where
-  c : State := []
-  a : SState := []
+  c : FState := []
+  a : FSState := []
 
-def both (s : St) (cmd : Cmd) : St × String :=
-  let rc := C01.step s.c cmd
-  let ra := Spec.step s.a cmd
+def both (s : St) (cmd : FCmd) : St × String :=
+  let rc := C01.fstep s.c cmd
+  let ra := FSpec.step s.a cmd
   ({ c := rc.1, a := ra.1 },
    if rc.2 = ra.2 then showOut rc.2 else "SPECDIFF " ++ showOut rc.2 ++ " | " ++ showOut ra.2)
 
 def stepLine (s : St) : List String → St × String
-  | ["reset", k] => ({ c := C01.init k.toNat!, a := Spec.init k.toNat! }, "ok")
+  | ["reset", k] => ({ c := C01.finit k.toNat!, a := FSpec.init k.toNat! }, "ok")
   | ["new", i, w, hm] =>
     match i.toNat?, bool? w, meta? "-" hm with
     | some i, some w, some hm => both s (.new i w hm)
@@ -135,20 +164,32 @@ def stepLine (s : St) : List String → St × String
     | some i, some j => both s (.copy i j)
     | _, _ => (s, "bad-op")
   | "op" :: i :: rest =>
-    match i.toNat?, op? rest with
+    match i.toNat?, fop? rest with
     | some i, some op => both s (.on i op)
     | _, _ => (s, "bad-op")
   | "q" :: i :: rest =>
-    match i.toNat?, query? rest with
+    match i.toNat?, fquery? rest with
     | some i, some q =>
-      let c := showAns (C01.query s.c i q)
-      let a := showAns (Spec.query s.a i q)
+      let c := showFAns (C01.fquery s.c i q)
+      let a := showFAns (FSpec.query s.a i q)
       (s, if c = a then c else "SPECDIFF " ++ c ++ " | " ++ a)
+    | _, _ => (s, "bad-op")
+  | "extract" :: i :: j :: rest =>
+    match i.toNat?, j.toNat?, extract? rest with
+    | some i, some j, some x => both s (.extract i j x)
+    | _, _, _ => (s, "bad-op")
+  | ["rebase", i, j] =>
+    match i.toNat?, j.toNat? with
+    | some i, some j =>
+      match s.c[i]?, s.a[i]?, s.c[j]?, s.a[j]? with
+      | some ci, some ai, some cj, some aj =>
+        ({ c := s.c.set j { cj with base := ci.base }, a := s.a.set j { aj with base := ai.base } }, "ok")
+      | _, _, _, _ => (s, "bad-op")
     | _, _ => (s, "bad-op")
   | ["chk", i] =>
     match i.toNat? with
     | some i => (s, match s.c[i]?, s.a[i]? with
-      | some c, some a => showBool (decide (C01.abs c = a))
+      | some c, some a => showBool (decide (C01.fabs c = a))
       | _, _ => "0")
     | none => (s, "bad-op")
   | _ => (s, "bad-op")
